@@ -134,6 +134,29 @@ def graph_fixed():
     # ... and from a file of the same name next to it
     side = add(Item("FgTypesSide", "FgTypesSide", "named", fields=[Field("fg_side", prim("bool"))], export_to="fgapi2/types.ts"))
     add(Item("FgTypesUser", "FgTypesUser", "named", fields=[Field("fg_s", user(side)), Field("fg_l", user(low))], export_to="fgapi/v2/x/types.ts"))
+    # a concretised parameter that has a Rust default: neither the parameter nor its default is part of the declaration
+    kel = add(Item("FgKelvin", "FgKelvin", "named", fields=[Field("fg_k", prim("f32"))], export_to="fgunits/"))
+    cel = add(Item("FgCelsius", "FgCelsius", "named", fields=[Field("fg_c", prim("f32"))], export_to="fgunits/"))
+    lab = add(Item("FgLabel", "FgLabel", "named", fields=[Field("fg_l", prim("String"))]))
+    rd = add(Item("FgReading", "FgReading", "named", params=["U", "L"],
+                  fields=[Field("fg_value", Ty("param", "U")), Field("fg_label", Ty("param", "L")), Field("fg_at", prim("u32"))]))
+    rd.param_defaults = {"U": "FgKelvin", "L": "FgLabel"}
+    rd.param_default_tys = {"U": user(kel), "L": user(lab)}
+    rd.concrete = {"U": "FgCelsius"}
+    rd.fixed_args = [user(cel), user(lab)]
+    # the default of a parameter is also the type of an inlined / flattened field: the declaration still names it (`T = FgMeta`)
+    meta = add(Item("FgMeta", "FgMeta", "named", fields=[Field("fg_rev", prim("u32"))], export_to="fgmeta/"))
+    pg = add(Item("FgPage", "FgPage", "named", params=["T"],
+                  fields=[Field("fg_meta", user(meta), inline=True), Field("fg_items", Ty("vec", args=[Ty("param", "T")]))]))
+    pg.param_defaults = {"T": "FgMeta"}
+    pg.param_default_tys = {"T": user(meta)}
+    pg.fixed_args = [prim("u8")]
+    meta2 = add(Item("FgMeta2", "FgMeta2", "named", fields=[Field("fg_rev2", prim("u32"))], export_to="fgmeta/"))
+    ev = add(Item("FgEnvelope", "FgEnvelope", "named", params=["T"],
+                  fields=[Field("fg_meta2", user(meta2), flatten=True), Field("fg_body", Ty("param", "T"))]))
+    ev.param_defaults = {"T": "FgMeta2"}
+    ev.param_default_tys = {"T": user(meta2)}
+    ev.fixed_args = [prim("bool")]
     # directory names that need escaping inside the import statement's string literal
     qd = add(Item("FgQuoteDep", "FgQuoteDep", "named", fields=[Field("fg_q", prim("u8"))], export_to='fg"quo"te/'))
     bd = add(Item("FgBackslashDep", "FgBackslashDep", "named", fields=[Field("fg_b", prim("u8"))], export_to="fgback\\slash/n.ts"))
@@ -144,4 +167,6 @@ def graph_fixed():
     add(Item("FgQuoteHolder", "FgQuoteHolder", "named", fields=[Field("fg_h2", Ty("user", item=items[-2])), Field("fg_h3", Ty("user", item=items[-1]))]))
     g.items = items
     g.make_entries(per_generic=1)
+    # instantiations the cases prescribe
+    g.entries = [(eid, it, getattr(it, "fixed_args", args)) for eid, it, args in g.entries]
     return g
